@@ -379,6 +379,16 @@ def update_merge_statements():
                 upd = (("c1", C(q, "c1")),) if mode in ("upd", "both") else ()
                 ins = (("k", C(q, "k")), ("c2", C(q, "c2"))) if mode in ("ins", "both") else ()
                 out.append((ir.Merge(tgt, src, ir.Cmp(C(tn, "k"), "=", C(q, "k")), upd, ins), ["kind:Merge", "merge_source:" + sname, "merge:" + mode, "target_alias" if talias else "target_plain"]))
+            # several WHEN clauses of one kind with different column lists / orders, conditional clauses, DELETE
+            cond = ir.Cmp(C(q, "c1"), "=", ir.Lit("1"))
+            multi = [
+                ("two_inserts", (), (("k", C(q, "k")), ("c1", C(q, "c1"))), (("ins", None, (("c2", C(q, "c2")),)),)),
+                ("two_inserts_reordered", (), (("k", C(q, "k")), ("c1", C(q, "c1"))), (("ins", cond, (("c1", C(q, "c2")), ("k", C(q, "k")))),)),
+                ("two_updates", (("c1", C(q, "c1")),), (), (("upd", cond, (("c2", C(q, "c2")), ("c1", C(q, "k")))),)),
+                ("update_delete_insert", (("c1", C(q, "c1")),), (("k", C(q, "k")),), (("del", cond, ()), ("ins", cond, (("c2", C(q, "c1")),)))),
+            ]
+            for mname, upd, ins, more in multi:
+                out.append((ir.Merge(tgt, src, ir.Cmp(C(tn, "k"), "=", C(q, "k")), upd, ins, more), ["kind:Merge", "merge_source:" + sname, "merge:" + mname, "target_alias" if talias else "target_plain"]))
     return out
 
 
